@@ -116,11 +116,22 @@ pub(crate) fn encode_internal<W: Write, S: Borrow<Schema>>(
         | Value::LocalTimestampNanos(i)
         | Value::TimeMicros(i) => encode_long(*i, writer),
         Value::Float(x) => {
-            let bytes: &[u8] = &x.to_le_bytes();
-            writer
-                .write_all(bytes)
-                .map(|()| bytes.len())
-                .map_err(|e| Details::WriteBytes(e).into())
+            if let Schema::Double = schema {
+                // validation accepts a float for a double schema: write it widened
+                encode_internal(
+                    &Value::Double(f64::from(*x)),
+                    schema,
+                    names,
+                    enclosing_namespace,
+                    writer,
+                )
+            } else {
+                let bytes: &[u8] = &x.to_le_bytes();
+                writer
+                    .write_all(bytes)
+                    .map(|()| bytes.len())
+                    .map_err(|e| Details::WriteBytes(e).into())
+            }
         }
         Value::Double(x) => {
             let bytes: &[u8] = &x.to_le_bytes();
